@@ -466,7 +466,7 @@ fn replay(path: &str) -> i32 {
         "drops" => eng_drops::replay(&v),
         "hist" | "threads" => eng_hist::replay(&v),
         "graphemes" | "iterinput" | "cursor" | "seqs" | "pulls" | "collects" => eng_inputs::replay(&v),
-        "leftrec" | "sharedmemo" | "rec" | "rec-life" | "rec-depth" | "rec-define" => eng_rec::replay(&v),
+        "leftrec" | "sharedmemo" | "ctxmemo" | "rec-erased" | "rec" | "rec-life" | "rec-depth" | "rec-define" => eng_rec::replay(&v),
         _ => cvh::replay::replay(&v),
     };
     match res {
